@@ -46,15 +46,23 @@ for p in $prop "$@"; do
   results="$results{\"check\":\"$p quick\",\"exit\":$rc,\"invariants\":\"$inv\"},"
 done
 git -C /repo worktree remove --force "$ev" >/dev/null 2>&1
-cat > "$out/meta.json" <<META
-{
- "id": "$name",
- "property": "$prop",
+python3 - "$out/meta.json" "$name" "$prop" "$valid" "$suite_with" "$demo_with" "$demo_without" "$demodir" "[${results%,}]" <<'PY'
+import json, sys
+path, name, prop, valid, sw, dw, dwo, demodir, results = sys.argv[1:10]
+try:
+    m = json.load(open(path))          # keep hand-written fields (needs_to_manifest, note) of earlier evaluations
+except Exception:
+    m = {}
+m.update({
+ "id": name,
+ "property": prop,
  "made_by": "independent sub-agent given only the property text and a scratch worktree",
- "valid": $valid,
- "confirmed": {"existing_suite_with_change": "$suite_with", "demo_with_change": "$demo_with", "demo_without_change": "$demo_without"},
- "ran": ["go test -vet=off -count=1 -skip TestSeededDemo ./...", "go test -run TestSeededDemo $demodir (with and without patch.diff)", "VERIF_REPO=<scratch worktree with patch.diff applied> /verif/check <P> quick"],
- "checks": [${results%,}],
- "needs_to_manifest": "see SEEDED.md"
-}
-META
+ "valid": valid == "true",
+ "confirmed": {"existing_suite_with_change": sw, "demo_with_change": dw, "demo_without_change": dwo},
+ "ran": ["go test -vet=off -count=1 -skip TestSeededDemo ./...", "go test -run TestSeededDemo %s (with and without patch.diff)" % demodir,
+         "VERIF_REPO=<scratch worktree of /repo's head with patch.diff applied> /verif/check <P> quick"],
+ "checks": json.loads(results),
+})
+m.setdefault("needs_to_manifest", "see SEEDED.md")
+json.dump(m, open(path, "w"), indent=1)
+PY
